@@ -432,7 +432,7 @@ func genExpr(t *rapid.T) *Node {
 		return &n
 	case 3, 4:
 		n := c06ExprGen.Draw(t)
-		n.Wrap = rapid.SampledFrom([]int{WrapNative, WrapNative, WrapAliasS, WrapPtr}).Draw(t, "wrap")
+		n.Wrap = rapid.SampledFrom([]int{WrapNative, WrapNative, WrapAliasS, WrapPtr, WrapAlias, WrapLoud, WrapPtrLoud}).Draw(t, "wrap")
 		return &n
 	case 5:
 		e := LeafN(VS("inner"))
